@@ -34,7 +34,8 @@ LEVEL_TEXT = (
     "behaviour. A threads class runs the fill-in and fuzzy oracles while two "
     "or three threads share the module default parser under a seeded "
     "scheduler. Option semantics are input sampling inside a vetted domain "
-    "and are reported as such.")
+    "and are reported as such."
+    " Session 3 added: weekday+month and weekday+day partial texts, aware defaults, integer offset 0 from tzinfos, single-digit-hour offsets, gap-hour local texts, the relation 'accepted plain => same with fuzzy' on zone texts, decimal-context events.")
 LEVEL_NOTE = (
     "Trusted: the harness' default-fill model (replace exactly the rendered "
     "fields; clip the day only when no day was rendered; a bare weekday "
